@@ -301,6 +301,16 @@ RESTART:
 		return tmconsensus.HandleProposedHeaderBadBlockHash
 	}
 
+	// The block hash only covers the hashes of the validator sets.
+	// Confirm that the validator lists carried with the header match those hashes;
+	// otherwise the lists could be altered in transit
+	// without invalidating the block hash or the proposer's signature,
+	// and we would adopt the altered set when the header is committed.
+	if !m.validatorSetMatchesHashes(ph.Header.ValidatorSet) ||
+		!m.validatorSetMatchesHashes(ph.Header.NextValidatorSet) {
+		return tmconsensus.HandleProposedHeaderBadBlockHash
+	}
+
 	// Validate the signature based on the public key the kernel reported.
 	signContent, err := tmconsensus.ProposalSignBytes(ph.Header, ph.Round, ph.Annotations, m.sigScheme)
 	if err != nil {
@@ -413,6 +423,28 @@ RESTART:
 	// Is accepting here sufficient?
 	// We could adjust the addPHRequests channel to respond with a value if needed.
 	return tmconsensus.HandleProposedHeaderAccepted
+}
+
+// validatorSetMatchesHashes reports whether the validators and public keys listed in vs
+// hash to the public key hash and vote power hash that vs declares.
+func (m *Mirror) validatorSetMatchesHashes(vs tmconsensus.ValidatorSet) bool {
+	if len(vs.Validators) == 0 || len(vs.PubKeys) != len(vs.Validators) {
+		return false
+	}
+
+	want, err := tmconsensus.NewValidatorSet(vs.Validators, m.hashScheme)
+	if err != nil {
+		return false
+	}
+
+	for i, k := range vs.PubKeys {
+		if k == nil || !k.Equal(want.PubKeys[i]) {
+			return false
+		}
+	}
+
+	return bytes.Equal(want.PubKeyHash, vs.PubKeyHash) &&
+		bytes.Equal(want.VotePowerHash, vs.VotePowerHash)
 }
 
 func (m *Mirror) backfillCommitForNextHeightPE(
